@@ -27,10 +27,33 @@ def seeded():
   return "\n".join(open(p).read().splitlines()[2:])
 
 
+def asbuilt():
+  import importlib, sys
+  sys.path[:0] = [HERE, "/repo/src/main/python"]
+  rows = ["| id | parts (cases quick / thorough; enum = enumerated) | quick tier as committed: evaluations, distinct non-trivial, wall |",
+          "|----|-----|-----|"]
+  for i in range(1, 20):
+    pid = "C%02d" % i
+    try:
+      mod = importlib.import_module("vt.props.c%02d" % i)
+      parts = []
+      for name, part in mod.PARTS.items():
+        parts.append("%s %s" % (name, "enum" if part.strategy is None else "%d/%d" % tuple(part.n)))
+    except Exception as e:  # pylint: disable=broad-except
+      parts = ["(%s)" % type(e).__name__]
+    try:
+      ev = json.load(open(os.path.join(HERE, "evidence", pid + ".json")))
+      q = "%d, %d, %.0f s" % (ev["coverage"]["evaluations"], ev["coverage"]["distinct_nontrivial"], ev.get("wall_s", 0))
+    except Exception:  # pylint: disable=broad-except
+      q = "-"
+    rows.append("| %s | %s | %s |" % (pid, "; ".join(parts), q))
+  return "\n".join(rows)
+
+
 def main():
   p = os.path.join(HERE, "DESIGN.md")
   s = open(p).read()
-  for name, fn in (("findings", findings), ("seeded", seeded)):
+  for name, fn in (("findings", findings), ("seeded", seeded), ("asbuilt", asbuilt)):
     a, b = "<!-- BEGIN %s -->" % name, "<!-- END %s -->" % name
     if a in s:
       i, j = s.index(a) + len(a), s.index(b)
